@@ -56,7 +56,9 @@ fn comp(name: &str, opt: bool) -> Comp {
 }
 
 /// Enumerated extensible shapes. `adds`: sequence over 0=component, 1=group(1), 2=group(1,versioned), 3=group(2), 4=group(2,versioned)
-fn c05_shape(kind: u8, n_root: usize, adds: Option<&[u8]>, nested: bool, implied: bool, tagging: Tagging) -> ModuleSet {
+/// `variant`: 0 plain; 1 / 2 = a second `...` followed by one / two further root components; 3 / 4 = the definition carries
+/// its own inner type constraint naming the second root component ABSENT / PRESENT (SEQUENCE and SET only)
+fn c05_shape(kind: u8, n_root: usize, adds: Option<&[u8]>, nested: bool, implied: bool, tagging: Tagging, variant: u8) -> ModuleSet {
     let mut serial = 0;
     let mut id = |p: &str| {
         serial += 1;
@@ -98,7 +100,9 @@ fn c05_shape(kind: u8, n_root: usize, adds: Option<&[u8]>, nested: bool, implied
                 })
                 .collect()
         });
-        let mut s = Struct { root, ext, root2: vec![] };
+        let root2: Vec<Comp> = if kind <= 1 && ext.is_some() { (0..match variant { 1 => 1, 2 => 2, _ => 0 }).map(|j| comp(&id(prefix), j == 1)).collect() } else { vec![] };
+        let inner = if kind <= 1 && variant >= 3 && root.len() >= 2 { Some(Constraint::Inner { comps: vec![(root[1].name.clone(), variant == 4)] }) } else { None };
+        let mut s = Struct { root, ext, root2 };
         if tagging != Tagging::Automatic {
             // distinct context tags keep SET / CHOICE / OPTIONAL runs legal outside AUTOMATIC TAGS
             let mut n = 0;
@@ -116,11 +120,14 @@ fn c05_shape(kind: u8, n_root: usize, adds: Option<&[u8]>, nested: bool, implied
                 }
             }
         }
-        Ty::plain(match kind {
-            0 => TyKind::Sequence(s),
-            1 => TyKind::Set(s),
-            _ => TyKind::Choice(s),
-        })
+        Ty {
+            constraint: inner,
+            ..Ty::plain(match kind {
+                0 => TyKind::Sequence(s),
+                1 => TyKind::Set(s),
+                _ => TyKind::Choice(s),
+            })
+        }
     };
     let top = if nested {
         let mut outer = Comp { name: "fq900".into(), ty, opt: Optionality::Required };
@@ -171,7 +178,17 @@ fn c05_space(max_root: usize, max_adds: usize) -> Vec<(String, ModuleSet)> {
                                 continue;
                             }
                             let key = format!("E(kind={kind},root={n_root},adds={adds:?},nested={nested},implied={implied},tagging={tagging:?})");
-                            v.push((key, c05_shape(kind, n_root, adds.as_deref(), nested, implied, tagging)));
+                            v.push((key, c05_shape(kind, n_root, adds.as_deref(), nested, implied, tagging, 0)));
+                            // end marker / inner type constraint variants: SEQUENCE and SET with a marker and <= 2 additions
+                            if kind <= 1 && !implied && tagging == Tagging::Automatic && adds.as_ref().is_some_and(|a| a.len() <= 2) {
+                                for variant in 1..=4u8 {
+                                    if variant >= 3 && n_root < 2 {
+                                        continue;
+                                    }
+                                    let key = format!("E(kind={kind},root={n_root},adds={adds:?},nested={nested},implied={implied},tagging={tagging:?},variant={variant})");
+                                    v.push((key, c05_shape(kind, n_root, adds.as_deref(), nested, implied, tagging, variant)));
+                                }
+                            }
                         }
                     }
                 }
@@ -195,7 +212,8 @@ fn parse_c05_origin(o: &str) -> Option<ModuleSet> {
     let nested = o.contains("nested=true");
     let implied = o.contains("implied=true");
     let tagging = if o.contains("tagging=Explicit") { Tagging::Explicit } else { Tagging::Automatic };
-    Some(c05_shape(kind, n_root, adds.as_deref(), nested, implied, tagging))
+    let variant = num(o, "variant=").unwrap_or(0) as u8;
+    Some(c05_shape(kind, n_root, adds.as_deref(), nested, implied, tagging, variant))
 }
 
 pub fn run_c05(ctx: &Ctx) -> Report {
